@@ -13,6 +13,7 @@ import (
 	"os"
 	"path/filepath"
 	"strings"
+	"sync/atomic"
 	"time"
 
 	"github.com/gr33nbl00d/caddy-revocation-validator/crl"
@@ -46,6 +47,7 @@ type CertSpec struct {
 }
 
 type World struct {
+	hung   bool // a call did not return: later steps are answered "hang" at once
 	c      *Ctx
 	Root   *CA
 	CA     *CA // issuing CA (directly under Root)
@@ -75,7 +77,7 @@ func NewWorld(c *Ctx, name string) *World {
 }
 
 func (w *World) Close() {
-	if w.V != nil {
+	if w.V != nil && !w.hung && atomic.LoadInt32(&globalHung) == 0 {
 		closeWithTimeout(w.V)
 	}
 	w.Org.Srv.CloseClientConnections()
@@ -200,8 +202,15 @@ func classify(err error) string {
 	return "error"
 }
 
+// globalHung: some world of this process met a call that never returned.  The implementation has process-wide
+// locks (the update mutex), so the other worlds cannot be trusted to make progress: they stop with "aborted".
+var globalHung int32
+
 // Do runs one step and returns its observation ("" for steps without one).
 func (w *World) Do(st Step) string {
+	if !w.hung && atomic.LoadInt32(&globalHung) == 1 && st.Op != "serve" {
+		return "aborted"
+	}
 	switch st.Op {
 	case "serve":
 		w.Org.mu.Lock()
@@ -213,6 +222,9 @@ func (w *World) Do(st Step) string {
 		}
 		return ""
 	case "handshake":
+		if w.hung {
+			return "hang" // a call that never returned holds its locks: everything after it is stuck as well
+		}
 		done := make(chan string, 1)
 		go func() { done <- classify(w.V.Verify(w.chainFor(st.What)...)) }()
 		select {
@@ -220,9 +232,14 @@ func (w *World) Do(st Step) string {
 			w.settle()
 			return r
 		case <-time.After(20 * time.Second):
+			w.hung = true
+			atomic.StoreInt32(&globalHung, 1)
 			return "hang"
 		}
 	case "refresh":
+		if w.hung {
+			return "hang"
+		}
 		if st.What != "" {
 			what := st.What
 			st.What = ""
@@ -243,9 +260,14 @@ func (w *World) Do(st Step) string {
 		case r := <-done:
 			return r
 		case <-time.After(60 * time.Second):
+			w.hung = true
+			atomic.StoreInt32(&globalHung, 1)
 			return "hang"
 		}
 	case "restart":
+		if w.hung {
+			return "hang"
+		}
 		if w.V != nil {
 			if !closeWithTimeout(w.V) {
 				w.V = nil
@@ -264,7 +286,7 @@ func (w *World) Do(st Step) string {
 // settle waits until background refresh goroutines (ticker start-up pass, background first
 // loads) have finished: they serialise on the package-level update mutex.
 func (w *World) settle() {
-	if w.V == nil || w.V.V.VerifCRLChecker() == nil {
+	if w.V == nil || w.hung || atomic.LoadInt32(&globalHung) == 1 || w.V.V.VerifCRLChecker() == nil {
 		return
 	}
 	time.Sleep(w.Delay + 15*time.Millisecond)
